@@ -5,6 +5,8 @@ Model driver for C15 (id sets, relation maps, item stash).  One op per line:
   D <w> <cb> size|empty|clear|copy|iter   n | 0/1 | ok | ok | "<count> id id ..." (error = UB/fuel)
   S set|get|getb <id> ; S sortu|size|list|clear ; S merge id id ...        IdSetSmall<uint64_t>
   R reset ; R add <member> <parent> ; R size ; R build m2p|p2m|both ; R look m2p|p2m <k>
+  R hist <n> m1 r1 .. mn rn k1 .. kp             a whole history on a fresh stash: all builders, all probes
+  S hist <n> id1 .. idn <m> o1 .. om k1 .. kp    a whole history on a fresh IdSetSmall
   I new <initial_buffer_size> ; I add <hex payload> ; I get <h> ; I rm <h> ; I gc ; I clear ; I size
         ; I idx
 -/
@@ -63,9 +65,41 @@ def stepDense (st : St) (w cb : Nat) (rest : List String) : St × String :=
     | some l => (st, natList l)
   | _ => (st, "bad-op")
 
+/-- `<count>[:v,v,..]` -/
+def cntList (l : List Nat) : String :=
+  match l with
+  | [] => "0"
+  | _ => toString l.length ++ ":" ++ ",".intercalate (l.map toString)
+
+def bits (l : List Bool) : String := String.join (l.map b01)
+
+/-- `S hist`: n set()s on a fresh set, raw content, get, sort_unique, get_binary_search, merge_sorted -/
+def histSmall (args : List Nat) : String :=
+  match args with
+  | [] => "bad-op"
+  | n :: rest =>
+    if rest.length < n + 1 then "bad-op" else
+    let ids := rest.take n
+    let rest := rest.drop n
+    match rest with
+    | [] => "bad-op"
+    | m :: rest =>
+      if rest.length < m then "bad-op" else
+      let others := rest.take m
+      let probes := rest.drop m
+      let s := ids.foldl IdSet.Small.set []
+      let s1 := IdSet.Small.sortUnique s
+      let other := IdSet.Small.sortUnique (others.foldl IdSet.Small.set [])
+      let s2 := IdSet.Small.mergeSorted s1 other
+      s!"raw {natList s} | get {bits (probes.map (IdSet.Small.get s))} | sorted {natList s1} | getb {bits (probes.map (IdSet.Small.getBinarySearch s1))} | merged {natList s2} | getb {bits (probes.map (IdSet.Small.getBinarySearch s2))}"
+
 def stepSmall (st : St) (rest : List String) : St × String :=
   let s := st.small
   match rest with
+  | "hist" :: args =>
+    match args.mapM String.toNat? with
+    | none => (st, "bad-op")
+    | some a => if a.any (· ≥ 2 ^ 64) then (st, "bad-op") else (st, histSmall a)
   | ["sortu"] => ({ st with small := IdSet.Small.sortUnique s }, "ok")
   | ["size"] => (st, toString s.length)
   | ["list"] => (st, natList s)
@@ -91,8 +125,34 @@ def stepSmall (st : St) (rest : List String) : St × String :=
 def ixInfo (ix : RelMap.Index) : String :=
   s!"{ix.size} {b01 ix.empty}"
 
+def ixHist (ix : RelMap.Index) (probes : List Nat) : String :=
+  " ".intercalate (toString ix.size :: b01 ix.empty :: probes.map fun k => cntList (ix.forEach k))
+
+def pairsOf : List Nat → List (Nat × Nat)
+  | a :: b :: r => (a, b) :: pairsOf r
+  | _ => []
+
+/-- `R hist`: the adds on a fresh stash, then every builder (each on its own copy of the stash: the builders
+    consume it), sizes and every probe -/
+def histRel (args : List Nat) : String :=
+  match args with
+  | [] => "bad-op"
+  | n :: rest =>
+    if rest.length < 2 * n then "bad-op" else
+    let adds := pairsOf (rest.take (2 * n))
+    let probes := rest.drop (2 * n)
+    let st : RelMap.Stash := adds.foldl (fun s p => s.add p.1 p.2) {}
+    let m := st.buildMemberToParent
+    let p := st.buildParentToMember
+    let (bm, bp) := st.buildIndexes
+    s!"S {st.size} {st.sizes.1} {st.sizes.2} {b01 st.empty} | M {ixHist m probes} | P {ixHist p probes} | BM {ixHist bm probes} | BP {ixHist bp probes} | B {bm.size} {b01 bm.empty}"
+
 def stepRel (st : St) (rest : List String) : St × String :=
   match rest with
+  | "hist" :: args =>
+    match args.mapM String.toNat? with
+    | none => (st, "bad-op")
+    | some a => if a.any (· ≥ 2 ^ 64) then (st, "bad-op") else (st, histRel a)
   | ["reset"] => ({ st with rel := {}, m2p := none, p2m := none }, "ok")
   | ["add", a, b] =>
     match a.toNat?, b.toNat? with
